@@ -2,7 +2,7 @@
  * Test double: a minimal re-implementation of the xmlsec1 command line tool on top of
  * libxmlsec1 (the CLI binary itself is not installed here; the library is).
  * Supports exactly the option subset pysaml2 uses:
- *   --version
+ *   --version, --list-transforms (both take part in VERIF_FAULT plans of kind 'any' / 'version' / 'list-transforms')
  *   --verify  --enabled-reference-uris L --pubkey-cert-pem F | --pubkey-cert-der F
  *             --id-attr:NAME [NS:]NODE [--node-id ID] --output O FILE
  *   --sign    --privkey-pem F --id-attr:NAME [NS:]NODE [--node-id ID] --output O FILE
@@ -512,8 +512,37 @@ int main(int argc, char **argv) {
 
     if (argc < 2) { fprintf(stderr, "Usage: xmlsec <command> [<options>] [<files>]\n"); return 1; }
     cmd = argv[1];
+    if (!strcmp(cmd, "--version") || !strcmp(cmd, "--list-transforms") || !strcmp(cmd, "--list-key-data")) {
+        /* informational runs take part in the fault plan too (kind 'any', 'version', ...): what a caller concludes from a run that
+         * said nothing usable about the tool is the caller's doing */
+        fm = fault_mode(cmd);
+        if (fm != NULL) {
+            log_fault = fm;
+            if (!strncmp(fm, "segv", 4)) { write_log(argc, argv, cmd, -SIGSEGV); raise(SIGSEGV); _exit(139); }
+            if (!strncmp(fm, "kill", 4)) { write_log(argc, argv, cmd, -SIGKILL); raise(SIGKILL); _exit(137); }
+            if (!strcmp(fm, "exit1_silent")) { write_log(argc, argv, cmd, 1); return 1; }
+            if (!strncmp(fm, "hex", 3) && strchr(fm, '_') != NULL) {
+                int rcx = atoi(fm + 3);
+                const char *h = strchr(fm, '_') + 1;
+                while (h[0] && h[1]) {
+                    unsigned int byte = 0;
+                    if (sscanf(h, "%2x", &byte) != 1) break;
+                    fputc((int)byte, stdout); fputc((int)byte, stderr);
+                    h += 2;
+                }
+                fflush(stdout); fflush(stderr);
+                write_log(argc, argv, cmd, rcx); return rcx;
+            }
+            if (!strcmp(fm, "trunc_output") || !strcmp(fm, "text_trunc")) fputs("xmlsec1 1.", stdout);
+            else if (!strcmp(fm, "garble_output") || !strcmp(fm, "text_garbage")) fputs("xm\x01sec1 \x02.\x03.x (openssl)\n", stdout);
+            else if (!strncmp(fm, "text_", 5)) fputs("NOT OK, sorry\n", stdout);
+            /* exit0_silent, no_output, empty_output: nothing at all, status 0 */
+            write_log(argc, argv, cmd, 0); return 0;
+        }
+    }
     if (!strcmp(cmd, "--version") || !strcmp(cmd, "version")) {
         fprintf(stdout, "xmlsec1 %s (openssl)\n", XMLSEC_VERSION);
+        write_log(argc, argv, cmd, 0);
         return 0;
     }
     if (!strcmp(cmd, "--list-transforms")) {
